@@ -11,7 +11,9 @@
 
    Self-contained on purpose (does not import Proofs/Lru.v, which belongs to C07). *)
 From Coq Require Import List NArith Bool Lia ZifyBool Permutation Sorting.Sorted.
-From Sccache Require Import Base.Sx Model.Lru Model.TcCache.
+From Sccache Require Import Base.Sx.
+From Sccache Require Import Model.Lru.
+From Sccache Require Import Model.TcCache.
 Import ListNotations.
 Local Open Scope N_scope.
 
@@ -493,4 +495,709 @@ Proof.
   - inversion H; subst; clear H. split_ci; auto.
     + unfold wf; auto.
     + repeat split; auto. intros k0 Hin. exact Hin.
+Qed.
+
+(* ---- LruDiskCache::new (init): re-indexes whatever is on the disk ---- *)
+Definition rinv (c : N) (a : st) (R : list (key * (N * N))) : Prop :=
+  core a /\ idle a /\ cap a = c /\ NoDup (keys R) /\
+  (forall k, In k (keys R) -> In k (keys (files a))) /\
+  (forall k, In k (keys R) -> ~ In k (keys (index a))).
+
+Lemma init_add_step c a e R :
+  rinv c a (e :: R) ->
+  rinv c (init_add a e) R /\ files_sub a (init_add a e) /\
+  next_h (init_add a e) = next_h a /\ clock (init_add a e) = clock a.
+Proof.
+  destruct e as [k [sz mt]]. intros (((Hnd & Hsub & Hs) & Hps & Hm) & (Hh & Hp) & Hc & HR & HRf & HRi).
+  simpl in HR. inversion HR as [|? ? Hk HR']; subst.
+  assert (Hkf : In k (keys (files a))) by (apply HRf; simpl; auto).
+  assert (Hki : ~ In k (keys (index a))) by (apply HRi; simpl; auto).
+  assert (Drop : rinv (cap a) (set_files a (aremove k (files a))) R /\
+                 files_sub a (set_files a (aremove k (files a)))).
+  { split.
+    - split; [|split; [|split; [|split; [|split]]]]; simpl; auto.
+      + split; [|split]; auto. unfold wf. simpl. repeat split; auto.
+        * intros k0 Hin. apply keys_aremove. split; auto. intros ->. contradiction.
+        * apply ksorted_aremove. exact Hs.
+      + split; auto.
+      + intros k0 Hin. apply keys_aremove. split; [apply HRf; simpl; auto | intros ->; contradiction].
+      + intros k0 Hin. apply HRi. simpl. auto.
+    - intros k0 Hin. simpl in Hin. apply keys_aremove in Hin. tauto. }
+  unfold init_add.
+  destruct (is_temp k); [destruct Drop as [D1 D2]; split; [exact D1 | split; [exact D2 | split; reflexivity]]|].
+  destruct (negb (sz <=? cap a)); [destruct Drop as [D1 D2]; split; [exact D1 | split; [exact D2 | split; reflexivity]]|].
+  clear Drop.
+  destruct (make_space a sz) as [ok s1] eqn:M.
+  assert (W : wf a) by (unfold wf; auto).
+  destruct (make_space_props _ _ _ _ M W) as (E1 & C1 & W1 & M1 & O1 & I1 & F1 & S1).
+  destruct E1 as (Ec & Ep & Eps & Eh & En).
+  assert (HRf1 : forall k0, In k0 (keys R) -> In k0 (keys (files s1))).
+  { intros k0 Hin. apply S1; [apply HRf | apply HRi]; simpl; auto. }
+  assert (HRi1 : forall k0, In k0 (keys R) -> ~ In k0 (keys (index s1))).
+  { intros k0 Hin Hx. apply I1 in Hx. revert Hx. apply HRi. simpl. auto. }
+  destruct ok.
+  - assert (Hm1 : measure s1 + sz <= cap s1) by (specialize (O1 eq_refl); lia).
+    destruct (lru_insert_props s1 k sz Hm1) as (Li & Lm & Lf & Lc & (Lcap & Lp & Lps & Lh & Ln)).
+    assert (Hkf1 : In k (keys (files s1))) by (apply S1; auto).
+    split; [|split; [|split]]; try congruence.
+    + split; [|split; [|split; [|split; [|split]]]]; try congruence; auto.
+      * split; [|split]; try congruence; try lia. apply wf_lru_insert; auto.
+      * split; congruence.
+      * intros k0 Hin. rewrite Lf. auto.
+      * intros k0 Hin Hx. apply keys_index_lru_insert in Hx; [|exact Hm1].
+        destruct Hx as [->|Hx]; [contradiction | revert Hx; apply HRi1; exact Hin].
+    + intros k0 Hin. rewrite Lf in Hin. auto.
+  - split; [|split; [|split]]; try congruence; auto.
+    split; [|split; [|split; [|split; [|split]]]]; try congruence; auto.
+    + split; [|split]; try congruence; try lia.
+    + split; congruence.
+Qed.
+
+Lemma init_fold c : forall R a,
+  rinv c a R ->
+  core (fold_left init_add R a) /\ idle (fold_left init_add R a) /\ cap (fold_left init_add R a) = c /\
+  files_sub a (fold_left init_add R a) /\ next_h (fold_left init_add R a) = next_h a /\
+  clock (fold_left init_add R a) = clock a.
+Proof.
+  induction R as [|e R IH]; intros a H.
+  - simpl. destruct H as (A & B & C & _). split; [exact A | split; [exact B | split; [exact C | split; [intros k Hin; exact Hin | split; reflexivity]]]].
+  - simpl. apply init_add_step in H. destruct H as (H & Fs & Nh & Ck).
+    apply IH in H. destruct H as (A & B & C & D & E & F).
+    split; [exact A | split; [exact B | split; [exact C | split; [| split; congruence]]]].
+    intros k Hin. apply Fs. apply D. exact Hin.
+Qed.
+
+Lemma reopen_props l c :
+  ksorted (files l) ->
+  core (reopen l c) /\ idle (reopen l c) /\ cap (reopen l c) = c /\
+  files_sub l (reopen l c) /\ next_h (reopen l c) = next_h l /\ clock (reopen l c) = clock l.
+Proof.
+  intros Hs. unfold reopen.
+  match goal with |- context [fold_left init_add ?R ?a] => pose proof (init_fold c R a) as H end.
+  simpl in H. apply H. clear H.
+  assert (P : Permutation (keys (sort_mtime (files l))) (keys (files l))).
+  { apply Permutation_map. apply sort_mtime_perm. }
+  split; [|split; [|split; [|split; [|split]]]]; simpl; auto.
+  - split; [|split]; simpl; auto; try lia. unfold wf. simpl. repeat split; auto; [constructor | intros k []].
+  - split; auto.
+  - eapply Permutation_NoDup; [apply Permutation_sym; exact P | apply ksorted_NoDup; exact Hs].
+  - intros k Hin. eapply Permutation_in; eauto.
+Qed.
+
+(* ---- next_h (the id of the next temp-file handle) is invisible ---- *)
+Definition set_nh (a : st) (n : N) : st :=
+  {| cap := cap a; index := index a; measure := measure a; pending := pending a;
+     pending_size := pending_size a; files := files a; handles := handles a;
+     next_h := n; clock := clock a |}.
+
+Lemma make_space_set_nh a n sz :
+  make_space (set_nh a n) sz = (fst (make_space a sz), set_nh (snd (make_space a sz)) n).
+Proof.
+  unfold make_space. simpl.
+  destruct (negb (sz <=? cap a) || negb (pending_size a + sz <=? cap a)); [reflexivity|].
+  destruct (evict (index a) (measure a) (files a) (pending_size a + sz) (cap a)) as [ok [[idx m] fs]].
+  reflexivity.
+Qed.
+
+Lemma lru_insert_set_nh a n k v : lru_insert (set_nh a n) k v = set_nh (lru_insert a k v) n.
+Proof.
+  unfold lru_insert. simpl.
+  destruct (lru_trim (aremove k (index a) ++ [(k, v)])
+              match alookup k (index a) with Some old => measure a + v - old | None => measure a + v end (cap a)).
+  reflexivity.
+Qed.
+
+Lemma init_add_set_nh a n e : init_add (set_nh a n) e = set_nh (init_add a e) n.
+Proof.
+  destruct e as [k [sz mt]]. unfold init_add. simpl cap.
+  destruct (is_temp k); [reflexivity|].
+  destruct (negb (sz <=? cap a)); [reflexivity|].
+  rewrite make_space_set_nh. destruct (make_space a sz) as [ok s1]. simpl.
+  destruct ok; [apply lru_insert_set_nh | reflexivity].
+Qed.
+
+Lemma init_fold_set_nh n : forall R a, fold_left init_add R (set_nh a n) = set_nh (fold_left init_add R a) n.
+Proof. induction R as [|e R IH]; intros a; simpl; [reflexivity|]. rewrite init_add_set_nh. apply IH. Qed.
+
+(* LruDiskCache::new only looks at the files (and the clock) *)
+Lemma reopen_only_files l l' c :
+  files l' = files l -> clock l' = clock l -> reopen l' c = set_nh (reopen l c) (next_h l').
+Proof.
+  intros Hf Hc. unfold reopen. rewrite <- init_fold_set_nh. rewrite Hf, Hc. reflexivity.
+Qed.
+
+(* ---- TcCache::insert_with seen from an idle cache ---- *)
+Definition bump (l : st) : st := set_nh l (next_h l + 1).
+
+Definition mid (l : st) (k : key) (n : N) : st :=
+  set_handles (set_pending l [k] 0)
+    [(next_h l, {| h_key := k; h_reserved := 0; h_written := n |})] (next_h l + 1).
+
+Lemma receive_idle s i b :
+  core (lru s) -> idle (lru s) ->
+  receive s i b = (mid (lru s) (key_path i) (blen b), ROk, next_h (lru s)).
+Proof.
+  intros (W & Hps & Hm) (Hh & Hp). unfold receive, prepare_add.
+  rewrite make_space_noop by lia. cbv beta iota zeta.
+  unfold write_tmp, mid. destruct (lru s) as [cp ix ms pd ps fl hd nh ck]. simpl in *. subst. simpl.
+  rewrite N.eqb_refl. simpl. rewrite ?N.eqb_refl, ?N.add_0_l. reflexivity.
+Qed.
+
+Lemma commit_mid l k n :
+  idle l -> pending_size l = 0 -> commit (mid l k n) (next_h l) = commit_core (bump l) k n.
+Proof.
+  intros (Hh & Hp) Hps. unfold commit, commit_core, mid, bump, release.
+  destruct l as [cp ix ms pd ps fl hd nh ck]. simpl in *. subst. simpl.
+  rewrite N.eqb_refl. simpl. rewrite ?N.eqb_refl, ?bytes_eqb_refl. simpl.
+  replace (0 - 0) with 0 by reflexivity. reflexivity.
+Qed.
+
+Lemma abandon_mid l k n :
+  idle l -> pending_size l = 0 -> abandon (mid l k n) (next_h l) = (bump l, ROk).
+Proof.
+  intros (Hh & Hp) Hps. unfold abandon, mid, bump, release.
+  destruct l as [cp ix ms pd ps fl hd nh ck]. simpl in *. subst. simpl.
+  rewrite N.eqb_refl. simpl. rewrite ?N.eqb_refl, ?bytes_eqb_refl. simpl.
+  replace (0 - 0) with 0 by reflexivity. reflexivity.
+Qed.
+
+Lemma reopen_mid l k n c : reopen (mid l k n) c = set_nh (reopen l c) (next_h l + 1).
+Proof. apply reopen_only_files; reflexivity. Qed.
+
+Lemma core_bump l : core l -> core (bump l).
+Proof. unfold core, wf, bump. simpl. auto. Qed.
+
+Lemma idle_bump l : idle l -> idle (bump l).
+Proof. unfold idle, bump. simpl. auto. Qed.
+
+(* ====================================================================== *)
+(* D. ids and paths                                                        *)
+(* ====================================================================== *)
+
+Lemma lhex_facts c : is_lhex c = true -> (c =? 46) = false /\ (c =? 47) = false /\ (c <? 128) = true.
+Proof. unfold is_lhex. intros H. repeat split; lia. Qed.
+
+Lemma valid_id_shape i :
+  valid_id i = true -> exists a b r, i = a :: b :: r /\ is_lhex a = true /\ is_lhex b = true /\ forallb is_lhex r = true.
+Proof.
+  destruct i as [|a [|b r]]; simpl; try discriminate. intros H.
+  apply andb_true_iff in H. destruct H as [Ha H]. apply andb_true_iff in H. destruct H as [Hb Hr].
+  exists a, b, r. auto.
+Qed.
+
+Lemma key_path_inj i j : valid_id i = true -> key_path j = key_path i -> j = i.
+Proof.
+  intros Hv H. apply valid_id_shape in Hv. destruct Hv as (a & b & r & -> & _).
+  destruct j as [|a' [|b' r']]; simpl in H; try discriminate.
+  inversion H. reflexivity.
+Qed.
+
+Lemma split_no_slash : forall l acc, forallb (fun c => negb (c =? 47)) l = true -> split_slash_aux l acc = [acc ++ l].
+Proof.
+  induction l as [|c r IH]; intros acc H; simpl.
+  - rewrite app_nil_r. reflexivity.
+  - simpl in H. apply andb_true_iff in H. destruct H as [Hc Hr].
+    apply negb_true_iff in Hc. rewrite Hc. rewrite IH by exact Hr. rewrite <- app_assoc. reflexivity.
+Qed.
+
+Lemma file_name_no_slash : forall l acc, forallb (fun c => negb (c =? 47)) l = true -> file_name_aux l acc = acc ++ l.
+Proof.
+  induction l as [|c r IH]; intros acc H; simpl.
+  - rewrite app_nil_r. reflexivity.
+  - simpl in H. apply andb_true_iff in H. destruct H as [Hc Hr].
+    apply negb_true_iff in Hc. rewrite Hc. rewrite IH by exact Hr. rewrite <- app_assoc. reflexivity.
+Qed.
+
+Lemma lhex_no_slash l : forallb is_lhex l = true -> forallb (fun c => negb (c =? 47)) l = true.
+Proof.
+  induction l as [|c r IH]; simpl; auto. intros H. apply andb_true_iff in H. destruct H as [Hc Hr].
+  apply lhex_facts in Hc. destruct Hc as (_ & Hc & _). rewrite Hc. simpl. auto.
+Qed.
+
+Lemma key_path_total i :
+  valid_id i = true ->
+  slices_ok i = true /\
+  (exists a b, key_path i = [a; 47; b; 47] ++ i /\ components (key_path i) = [[a]; [b]; i]) /\
+  forallb plain_component (components (key_path i)) = true /\
+  file_name (key_path i) = i /\ is_temp (key_path i) = false /\
+  (forall j, key_path j = key_path i -> j = i).
+Proof.
+  intros Hv. pose proof (key_path_inj i) as Hinj.
+  destruct (valid_id_shape i Hv) as (a & b & r & -> & Ha & Hb & Hr).
+  assert (Hns : forallb (fun c => negb (c =? 47)) r = true) by (apply lhex_no_slash; exact Hr).
+  destruct (lhex_facts a Ha) as (Ha46 & Ha47 & Ha128).
+  destruct (lhex_facts b Hb) as (Hb46 & Hb47 & Hb128).
+  assert (Hc : components (key_path (a :: b :: r)) = [[a]; [b]; a :: b :: r]).
+  { unfold components, key_path. simpl. rewrite Ha47, Hb47. rewrite split_no_slash by exact Hns. reflexivity. }
+  split; [simpl; rewrite Ha128, Hb128; reflexivity|].
+  split; [exists a, b; split; [reflexivity | exact Hc]|].
+  split.
+  { rewrite Hc. unfold plain_component. simpl. rewrite Ha46, Hb46. reflexivity. }
+  assert (Hfn : file_name (key_path (a :: b :: r)) = a :: b :: r).
+  { unfold file_name, key_path. simpl. rewrite Ha47, Hb47. rewrite file_name_no_slash by exact Hns. reflexivity. }
+  split; [exact Hfn|].
+  split; [|intros j Hj; apply Hinj; auto].
+  unfold is_temp. rewrite Hfn. simpl. rewrite N.eqb_sym, Ha46. reflexivity.
+Qed.
+
+(* ====================================================================== *)
+(* E. the TcCache invariant                                                *)
+(* ====================================================================== *)
+
+Lemma alookup_restrict k (c : list (key * bytes)) fs :
+  alookup k (restrict c fs) = if amem k fs then alookup k c else None.
+Proof.
+  unfold restrict. induction c as [|[k0 v] r IH]; simpl.
+  - destruct (amem k fs); reflexivity.
+  - destruct (amem k0 fs) eqn:M0; simpl.
+    + destruct (bytes_eqb k k0) eqn:E.
+      * apply bytes_eqb_eq in E. subst. rewrite M0. reflexivity.
+      * exact IH.
+    + destruct (bytes_eqb k k0) eqn:E.
+      * apply bytes_eqb_eq in E. subst. rewrite IH, M0. reflexivity.
+      * exact IH.
+Qed.
+
+Lemma restrict_id (c : list (key * bytes)) fs :
+  (forall e, In e c -> amem (fst e) fs = true) -> restrict c fs = c.
+Proof.
+  unfold restrict. induction c as [|e r IH]; simpl; auto. intros H.
+  rewrite (H e) by auto. f_equal. apply IH. auto.
+Qed.
+
+Lemma In_restrict e (c : list (key * bytes)) fs : In e (restrict c fs) -> In e c /\ amem (fst e) fs = true.
+Proof. unfold restrict. intros H. apply filter_In in H. exact H. Qed.
+
+Lemma alookup_cset k' k b (c : list (key * bytes)) :
+  alookup k' (cset k b c) = if bytes_eqb k' k then Some b else alookup k' c.
+Proof.
+  unfold cset. simpl. destruct (bytes_eqb k' k) eqn:E; auto.
+  apply alookup_aremove_neq. apply beq_neq. exact E.
+Qed.
+
+Lemma core_set_nh l n : core l -> core (set_nh l n).
+Proof. unfold core, wf. simpl. auto. Qed.
+Lemma idle_set_nh l n : idle l -> idle (set_nh l n).
+Proof. unfold idle. simpl. auto. Qed.
+
+Section Inv.
+Variable digest : bytes -> id.
+
+(* every entry file sits at a/b/<digest of its content> *)
+Definition good_files (s : tst) : Prop :=
+  forall k, In k (keys (files (lru s))) ->
+  exists c, alookup k (cont s) = Some c /\ k = key_path (digest c).
+
+Definition cont_sub (s : tst) : Prop :=
+  forall e, In e (cont s) -> amem (fst e) (files (lru s)) = true.
+
+Definition tinv (s : tst) : Prop :=
+  core (lru s) /\ idle (lru s) /\ cont_sub s /\ good_files s.
+
+Lemma tinv_mk s l' :
+  tinv s -> core l' -> idle l' -> files_sub (lru s) l' -> tinv (mk s l').
+Proof.
+  intros (C & I & CS & G) C' I' FS. unfold tinv, good_files, cont_sub, mk. cbn [lru cont]. split; [exact C'|]. split; [exact I'|]. split.
+  - intros e Hin. apply In_restrict in Hin. tauto.
+  - intros k Hin. destruct (G k (FS k Hin)) as (c & Hc & Hk).
+    exists c. split; [|exact Hk]. rewrite alookup_restrict.
+    replace (amem k (files l')) with true by (symmetry; apply amem_In; exact Hin). exact Hc.
+Qed.
+
+Lemma tinv_mk_put s l' k b :
+  tinv s -> core l' -> idle l' ->
+  (forall k', In k' (keys (files l')) -> k' = k \/ In k' (keys (files (lru s)))) ->
+  k = key_path (digest b) -> tinv (mk_put s l' k b).
+Proof.
+  intros (C & I & CS & G) C' I' FS Hk. unfold tinv, good_files, cont_sub, mk_put. cbn [lru cont]. split; [exact C'|]. split; [exact I'|]. split.
+  - intros e Hin. apply In_restrict in Hin. tauto.
+  - intros k' Hin. rewrite alookup_restrict.
+    replace (amem k' (files l')) with true by (symmetry; apply amem_In; exact Hin).
+    rewrite alookup_cset. destruct (bytes_eqb k' k) eqn:E.
+    + apply bytes_eqb_eq in E. subst k'. exists b. auto.
+    + apply beq_neq in E. destruct (FS k' Hin) as [->|Hf]; [congruence|]. apply G. exact Hf.
+Qed.
+
+Lemma files_sub_refl l : files_sub l l.
+Proof. intros k H. exact H. Qed.
+
+Lemma files_sub_set_nh l l' n : files_sub l l' -> files_sub l (set_nh l' n).
+Proof. intros H k Hin. apply H. exact Hin. Qed.
+
+Lemma files_sub_bump l : files_sub l (bump l).
+Proof. apply files_sub_set_nh, files_sub_refl. Qed.
+
+Lemma tinv_insert_with s i b fail :
+  tinv s -> tinv (fst (fst (tc_insert_with digest s i b fail))).
+Proof.
+  intros T. pose proof T as (C & I & CS & G). unfold tc_insert_with.
+  destruct (valid_id i); simpl; [|exact T].
+  rewrite receive_idle by assumption.
+  destruct C as (W & Hps & Hm).
+  destruct fail.
+  - rewrite abandon_mid by assumption. simpl.
+    apply tinv_mk; auto using idle_bump, files_sub_bump. apply core_bump. split; auto.
+  - destruct (bytes_eqb (digest b) i) eqn:E.
+    + apply bytes_eqb_eq in E. rewrite commit_mid by assumption.
+      destruct (commit_core (bump (lru s)) (key_path i) (blen b)) as [[l3 r3] t3] eqn:CC.
+      assert (CB : core (bump (lru s))) by (apply core_bump; split; auto).
+      destruct (commit_core_props _ _ _ _ _ _ CC CB (idle_bump _ I)) as (C3 & I3 & _ & _ & F3 & R3).
+      destruct R3 as [->|[-> ->]]; simpl.
+      * apply tinv_mk_put; auto.
+        -- intros k' Hin. destruct (F3 k' Hin) as [[-> _]|Hf]; auto.
+        -- rewrite E. reflexivity.
+      * apply tinv_mk; auto. intros k' Hin. destruct (F3 k' Hin) as [[_ Hx]|Hf]; [discriminate | exact Hf].
+    + rewrite abandon_mid by assumption. simpl.
+      apply tinv_mk; auto using idle_bump, files_sub_bump. apply core_bump. split; auto.
+Qed.
+
+Lemma tinv_crash_upload s i b c : tinv s -> tinv (tc_crash_upload s i b c).
+Proof.
+  intros T. pose proof T as (C & I & CS & G). unfold tc_crash_upload.
+  assert (Hs : ksorted (files (lru s))) by apply C.
+  destruct (reopen_props (lru s) c Hs) as (RC & RI & _ & RF & _).
+  destruct (valid_id i); simpl.
+  - rewrite receive_idle by assumption. rewrite reopen_mid.
+    apply tinv_mk; auto using core_set_nh, idle_set_nh, files_sub_set_nh.
+  - apply tinv_mk; auto.
+Qed.
+
+Lemma tinv_insert_file s b : tinv s -> tinv (fst (fst (fst (tc_insert_file digest s b)))).
+Proof.
+  intros T. pose proof T as (C & I & CS & G). unfold tc_insert_file.
+  destruct (valid_id (digest b)); simpl; [|exact T].
+  destruct (insert_by (lru s) (key_path (digest b)) (Some (blen b)) (blen b) false) as [[l1 r] t] eqn:IB.
+  destruct (insert_file_props _ _ _ _ _ _ IB C I) as (C1 & I1 & _ & _ & F1).
+  destruct r; simpl.
+  - apply tinv_mk_put; auto. intros k' Hin. destruct (F1 k' Hin) as [[-> _]|Hf]; auto.
+  - apply tinv_mk; auto. intros k' Hin. destruct (F1 k' Hin) as [[_ Hx]|Hf]; [discriminate | exact Hf].
+  - apply tinv_mk; auto. intros k' Hin. destruct (F1 k' Hin) as [[_ Hx]|Hf]; [discriminate | exact Hf].
+  - apply tinv_mk; auto. intros k' Hin. destruct (F1 k' Hin) as [[_ Hx]|Hf]; [discriminate | exact Hf].
+  - apply tinv_mk; auto. intros k' Hin. destruct (F1 k' Hin) as [[_ Hx]|Hf]; [discriminate | exact Hf].
+Qed.
+
+Lemma tinv_get s i : tinv s -> tinv (fst (fst (fst (tc_get digest s i)))).
+Proof.
+  intros T. pose proof T as (C & I & CS & G). unfold tc_get.
+  destruct (valid_id i); simpl; [|exact T].
+  destruct (get (lru s) (key_path i)) as [[l1 r] t] eqn:GE.
+  destruct (get_props _ _ _ _ _ GE C I) as (C1 & I1 & _ & _ & F1 & _).
+  destruct r; simpl; apply tinv_mk; auto.
+Qed.
+
+Lemma tinv_remove s i : tinv s -> tinv (fst (tc_remove s i)).
+Proof.
+  intros T. pose proof T as (C & I & CS & G). unfold tc_remove.
+  destruct (valid_id i); simpl; [|exact T].
+  destruct (remove (lru s) (key_path i)) as [l1 r] eqn:RE.
+  destruct (remove_props _ _ _ _ RE C I) as (C1 & I1 & _ & _ & F1).
+  simpl. apply tinv_mk; auto.
+Qed.
+
+Lemma tinv_reopen s c : tinv s -> tinv (tc_reopen s c).
+Proof.
+  intros T. pose proof T as (C & I & CS & G). unfold tc_reopen.
+  assert (Hs : ksorted (files (lru s))) by apply C.
+  destruct (reopen_props (lru s) c Hs) as (RC & RI & _ & RF & _).
+  apply tinv_mk; auto.
+Qed.
+
+Lemma tinv_step s o : tinv s -> tinv (fst (tstep digest s o)).
+Proof.
+  intros T. destruct o as [i b f|i b c|b|i|i|i|c]; simpl.
+  - pose proof (tinv_insert_with s i b f T) as H.
+    destruct (tc_insert_with digest s i b f) as [[s' r] t]. exact H.
+  - apply tinv_crash_upload. exact T.
+  - pose proof (tinv_insert_file s b T) as H.
+    destruct (tc_insert_file digest s b) as [[[s' r] t] ret]. exact H.
+  - pose proof (tinv_get s i T) as H.
+    destruct (tc_get digest s i) as [[[s' r] t] ret]. exact H.
+  - exact T.
+  - pose proof (tinv_remove s i T) as H. destruct (tc_remove s i) as [s' r]. exact H.
+  - apply tinv_reopen. exact T.
+Qed.
+
+Lemma tinv_run ops : forall s, tinv s -> tinv (trun digest s ops).
+Proof.
+  unfold trun. induction ops as [|o r IH]; intros s T; simpl; [exact T|].
+  apply IH. apply tinv_step. exact T.
+Qed.
+
+End Inv.
+
+(* ====================================================================== *)
+(* F. the theorems                                                         *)
+(* ====================================================================== *)
+
+Lemma In_aremove {V} k e (l : list (key * V)) : In e (aremove k l) -> In e l.
+Proof.
+  induction l as [|[k' v] r IH]; simpl; auto.
+  destruct (bytes_eqb k k'); simpl; intros H; tauto.
+Qed.
+
+Lemma alookup_In {V} k (v : V) l : alookup k l = Some v -> In (k, v) l.
+Proof.
+  induction l as [|[k' v'] r IH]; simpl; [discriminate|].
+  destruct (bytes_eqb k k') eqn:E.
+  - apply bytes_eqb_eq in E. subst. intros H. inversion H. auto.
+  - auto.
+Qed.
+
+Lemma set_nh_self l : set_nh l (next_h l) = l.
+Proof. destruct l; reflexivity. Qed.
+
+Lemma of_res_ok r : of_res r = TOk -> r = ROk.
+Proof. destruct r; simpl; congruence. Qed.
+
+Lemma tinv_empty digest c : tinv digest (tc_empty c).
+Proof.
+  unfold tinv, tc_empty, core, idle, wf, cont_sub, good_files. simpl.
+  repeat split; auto; try lia; try constructor; intros ? [].
+Qed.
+
+(* ---- C17_content_matches ---- *)
+Lemma content_matches_state digest s :
+  tinv digest s -> forall i,
+  (tc_contains s i = true -> exists c, content_of s i = Some c /\ digest c = i) /\
+  (forall s' t ret, tc_get digest s i = (s', TOk, t, ret) ->
+     exists c, ret = [c; digest c] /\ digest c = i /\ content_of s i = Some c).
+Proof.
+  intros (((Hnd & Hsub & Hs) & Hps & Hm) & I & CS & G) i.
+  assert (Key : valid_id i = true -> In (key_path i) (keys (files (lru s))) ->
+                exists c, alookup (key_path i) (cont s) = Some c /\ content_of s i = Some c /\ digest c = i).
+  { intros Hv Hin. destruct (G _ Hin) as (c & Hc & Hk). exists c. split; [exact Hc|]. split.
+    - unfold content_of. replace (amem (key_path i) (files (lru s))) with true by (symmetry; apply amem_In; exact Hin).
+      exact Hc.
+    - apply key_path_inj; auto. }
+  split.
+  - unfold tc_contains. intros H. apply andb_true_iff in H. destruct H as [Hv Hi].
+    apply amem_In in Hi. destruct (Key Hv (Hsub _ Hi)) as (c & _ & Hc & Hd). eauto.
+  - intros s' t ret. unfold tc_get. destruct (valid_id i) eqn:Hv; simpl; [|discriminate].
+    destruct (get (lru s) (key_path i)) as [[l1 r] t1] eqn:GE.
+    assert (C : core (lru s)) by (repeat split; auto).
+    destruct (get_props _ _ _ _ _ GE C I) as (_ & _ & _ & _ & _ & OK).
+    destruct r; simpl; intros H; inversion H; subst; clear H.
+    destruct (OK eq_refl) as (_ & Hf). destruct (Key eq_refl Hf) as (c & Hc & Hco & Hd).
+    rewrite Hc. exists c. auto.
+Qed.
+
+Theorem content_matches digest s0 ops :
+  tinv digest s0 ->
+  let s := trun digest s0 ops in
+  forall i,
+  (tc_contains s i = true -> exists c, content_of s i = Some c /\ digest c = i) /\
+  (forall s' t ret, tc_get digest s i = (s', TOk, t, ret) ->
+     exists c, ret = [c; digest c] /\ digest c = i /\ content_of s i = Some c).
+Proof. intros T s. apply content_matches_state. apply tinv_run. exact T. Qed.
+
+(* ---- C17_serves_the_intended_archive ---- *)
+Definition op_contents (o : top) : list bytes :=
+  match o with
+  | TInsertWith _ b _ => [b] | TCrashUpload _ b _ => [b] | TInsertFile b => [b]
+  | _ => []
+  end.
+
+Definition universe (s0 : tst) (ops : list top) : list bytes :=
+  map snd (cont s0) ++ flat_map op_contents ops.
+
+Definition no_collision (digest : bytes -> id) (U : list bytes) : Prop :=
+  forall a b, In a U -> In b U -> digest a = digest b -> a = b.
+
+Lemma cont_mk s l e : In e (cont (mk s l)) -> In e (cont s).
+Proof. unfold mk. cbn [cont]. intros H. apply In_restrict in H. tauto. Qed.
+
+Lemma cont_mk_put s l k b e : In e (cont (mk_put s l k b)) -> e = (k, b) \/ In e (cont s).
+Proof.
+  unfold mk_put. cbn [cont]. intros H. apply In_restrict in H. destruct H as [H _].
+  unfold cset in H. destruct H as [H|H]; auto. right. eapply In_aremove; eauto.
+Qed.
+
+Lemma cont_step digest s o e :
+  In e (cont (fst (tstep digest s o))) -> In (snd e) (map snd (cont s) ++ op_contents o).
+Proof.
+  assert (Old : In e (cont s) -> In (snd e) (map snd (cont s) ++ op_contents o)).
+  { intros H. apply in_app_iff. left. apply in_map. exact H. }
+  destruct o as [i b f|i b c|b|i|i|i|c]; simpl.
+  - unfold tc_insert_with. destruct (valid_id i); simpl; auto.
+    destruct (receive s i b) as [[l2 r] h]. destruct r; simpl; try (intros H; apply cont_mk in H; auto).
+    destruct f; simpl; [intros H; apply cont_mk in H; auto|].
+    destruct (bytes_eqb (digest b) i); simpl; [|intros H; apply cont_mk in H; auto].
+    destruct (commit l2 h) as [[l3 r3] t3]. destruct r3; simpl; try (intros H; apply cont_mk in H; auto).
+    intros H. apply cont_mk_put in H. destruct H as [->|H]; auto.
+    apply in_app_iff. right. simpl. auto.
+  - unfold tc_crash_upload. destruct (valid_id i); simpl.
+    + destruct (receive s i b) as [[l2 r] h]. intros H. apply cont_mk in H. auto.
+    + intros H. apply cont_mk in H. auto.
+  - unfold tc_insert_file. destruct (valid_id (digest b)); simpl; auto.
+    destruct (insert_by (lru s) (key_path (digest b)) (Some (blen b)) (blen b) false) as [[l1 r] t].
+    destruct r; simpl; try (intros H; apply cont_mk in H; auto).
+    intros H. apply cont_mk_put in H. destruct H as [->|H]; auto.
+    apply in_app_iff. right. simpl. auto.
+  - unfold tc_get. destruct (valid_id i); simpl; auto.
+    destruct (get (lru s) (key_path i)) as [[l1 r] t].
+    destruct r; simpl; intros H; apply cont_mk in H; auto.
+  - auto.
+  - unfold tc_remove. destruct (valid_id i); simpl; auto.
+    destruct (remove (lru s) (key_path i)) as [l1 r]. simpl. intros H. apply cont_mk in H. auto.
+  - unfold tc_reopen. intros H. apply cont_mk in H. auto.
+Qed.
+
+Lemma cont_run digest ops : forall s e,
+  In e (cont (trun digest s ops)) -> In (snd e) (universe s ops).
+Proof.
+  unfold trun, universe. induction ops as [|o r IH]; intros s e H; simpl in *.
+  - rewrite app_nil_r. apply in_map. exact H.
+  - apply IH in H. apply in_app_iff in H. destruct H as [H|H].
+    + apply in_map_iff in H. destruct H as (e' & <- & H). apply cont_step in H.
+      apply in_app_iff in H. rewrite !in_app_iff. tauto.
+    + rewrite !in_app_iff. tauto.
+Qed.
+
+Theorem serves_the_intended_archive digest s0 ops a0 :
+  tinv digest s0 ->
+  no_collision digest (a0 :: universe s0 ops) ->
+  let s := trun digest s0 ops in
+  forall s' t ret, tc_get digest s (digest a0) = (s', TOk, t, ret) -> ret = [a0; digest a0].
+Proof.
+  intros T NC s s' t ret H.
+  destruct (content_matches digest s0 ops T (digest a0)) as (_ & GM).
+  destruct (GM _ _ _ H) as (c & -> & Hd & Hc).
+  unfold content_of in Hc. destruct (amem (key_path (digest a0)) (files (lru (trun digest s0 ops)))); [|discriminate].
+  apply alookup_In in Hc. apply cont_run in Hc. simpl in Hc.
+  assert (c = a0) by (apply NC; simpl; auto). subst. reflexivity.
+Qed.
+
+(* ---- C17_bad_upload_leaves_nothing ---- *)
+Definition same_visible (s s' : tst) : Prop :=
+  lru s' = set_nh (lru s) (next_h (lru s')) /\ cont s' = cont s.
+
+Lemma next_h_reopen l c : next_h (reopen l c) = next_h l.
+Proof.
+  pose proof (reopen_only_files l l c eq_refl eq_refl) as H.
+  apply (f_equal next_h) in H. simpl in H. exact H.
+Qed.
+
+Lemma same_visible_facts s s' :
+  same_visible s s' ->
+  index (lru s') = index (lru s) /\ files (lru s') = files (lru s) /\ cont s' = cont s /\
+  handles (lru s') = handles (lru s) /\
+  (forall j, tc_contains s' j = tc_contains s j /\ content_of s' j = content_of s j) /\
+  (forall c, same_visible (tc_reopen s c) (tc_reopen s' c)).
+Proof.
+  intros (Hl & Hc). split; [rewrite Hl; reflexivity|]. split; [rewrite Hl; reflexivity|].
+  split; [exact Hc|]. split; [rewrite Hl; reflexivity|]. split.
+  - intros j. unfold tc_contains, content_of. rewrite Hl, Hc. simpl. auto.
+  - intros c. unfold same_visible, tc_reopen, mk. cbn [lru cont].
+    rewrite Hl at 1 3.
+    rewrite (reopen_only_files (lru s) (set_nh (lru s) (next_h (lru s'))) c) by reflexivity.
+    simpl. rewrite Hc, next_h_reopen. auto.
+Qed.
+
+Lemma bad_upload_state digest s i b fail :
+  tinv digest s ->
+  (fail = true \/ digest b <> i \/ valid_id i = false) ->
+  exists s' r, tc_insert_with digest s i b fail = (s', r, None) /\ r <> TOk /\ same_visible s s'.
+Proof.
+  intros (C & I & CS & G) Bad. unfold tc_insert_with.
+  destruct (valid_id i) eqn:Hv; simpl.
+  - rewrite receive_idle by assumption. destruct C as (W & Hps & Hm).
+    assert (SV : same_visible s (mk s (bump (lru s)))).
+    { unfold same_visible, mk, bump. cbn [lru cont]. split; [reflexivity|].
+      apply restrict_id. exact CS. }
+    destruct fail.
+    + rewrite abandon_mid by assumption. simpl. eexists _, _. split; [reflexivity|]. split; [discriminate | exact SV].
+    + destruct (bytes_eqb (digest b) i) eqn:E.
+      * apply bytes_eqb_eq in E. destruct Bad as [?|[?|?]]; congruence.
+      * rewrite abandon_mid by assumption. simpl. eexists _, _. split; [reflexivity|]. split; [discriminate | exact SV].
+  - exists s, TRejected. split; [reflexivity|]. split; [discriminate|].
+    split; [symmetry; apply set_nh_self | reflexivity].
+Qed.
+
+Theorem bad_upload_leaves_nothing digest s0 ops i b fail :
+  tinv digest s0 ->
+  let s := trun digest s0 ops in
+  (fail = true \/ digest b <> i \/ valid_id i = false) ->
+  exists s' r, tc_insert_with digest s i b fail = (s', r, None) /\ r <> TOk /\
+    index (lru s') = index (lru s) /\ files (lru s') = files (lru s) /\ cont s' = cont s /\
+    handles (lru s') = [] /\
+    (forall j, tc_contains s' j = tc_contains s j /\ content_of s' j = content_of s j) /\
+    (forall c, index (lru (tc_reopen s' c)) = index (lru (tc_reopen s c)) /\
+               files (lru (tc_reopen s' c)) = files (lru (tc_reopen s c)) /\
+               cont (tc_reopen s' c) = cont (tc_reopen s c)).
+Proof.
+  intros T s Bad. pose proof (tinv_run digest ops s0 T) as Ts. fold s in Ts.
+  destruct (bad_upload_state digest s i b fail Ts Bad) as (s' & r & E & R & SV).
+  exists s', r. split; [exact E|]. split; [exact R|].
+  destruct (same_visible_facts _ _ SV) as (A & B & C & D & F & H).
+  split; [exact A|]. split; [exact B|]. split; [exact C|].
+  split; [rewrite D; apply Ts|]. split; [exact F|].
+  intros c. destruct (same_visible_facts _ _ (H c)) as (A' & B' & C' & _). auto.
+Qed.
+
+(* ---- C17_crashed_upload_leaves_nothing ---- *)
+Lemma crash_upload_state digest s i b c :
+  tinv digest s -> same_visible (tc_reopen s c) (tc_crash_upload s i b c).
+Proof.
+  intros (C & I & CS & G). unfold tc_crash_upload, tc_reopen.
+  destruct (valid_id i); simpl.
+  - rewrite receive_idle by assumption. rewrite reopen_mid.
+    unfold same_visible, mk. cbn [lru cont]. split; reflexivity.
+  - unfold same_visible. split; [symmetry; apply set_nh_self | reflexivity].
+Qed.
+
+Theorem crashed_upload_leaves_nothing digest s0 ops i b c :
+  tinv digest s0 ->
+  let s := trun digest s0 ops in
+  let s' := tc_crash_upload s i b c in
+  index (lru s') = index (lru (tc_reopen s c)) /\ files (lru s') = files (lru (tc_reopen s c)) /\
+  cont s' = cont (tc_reopen s c) /\ handles (lru s') = [] /\
+  (forall j, tc_contains s' j = tc_contains (tc_reopen s c) j /\ content_of s' j = content_of (tc_reopen s c) j).
+Proof.
+  intros T s s'. pose proof (tinv_run digest ops s0 T) as Ts. fold s in Ts.
+  destruct (same_visible_facts _ _ (crash_upload_state digest s i b c Ts)) as (A & B & C & D & F & _).
+  fold s' in A, B, C, D, F.
+  split; [exact A|]. split; [exact B|]. split; [exact C|]. split; [|exact F].
+  rewrite D. apply (tinv_reopen digest s c Ts).
+Qed.
+
+(* ---- C17_invalid_id_no_effect ---- *)
+Theorem invalid_id_no_effect digest s i :
+  valid_id i = false ->
+  (forall b f, tc_insert_with digest s i b f = (s, TRejected, None)) /\
+  tc_get digest s i = (s, TNotInCache, None, []) /\
+  tc_contains s i = false /\
+  tc_remove s i = (s, TOk).
+Proof.
+  intros H. unfold tc_insert_with, tc_get, tc_contains, tc_remove. rewrite H. simpl. auto.
+Qed.
+
+(* ---- the client side ---- *)
+Lemma tinv_cstep digest s o : tinv digest (tcs s) -> tinv digest (tcs (fst (cstep digest s o))).
+Proof.
+  intros T. destruct o as [w b f|i|c]; simpl.
+  - destruct (alookup w (weak s)); [exact T|]. destruct f; [exact T|].
+    pose proof (tinv_insert_file digest (tcs s) b T) as H.
+    destruct (tc_insert_file digest (tcs s) b) as [[[s' r] t] ret]. simpl in H.
+    destruct r; exact H.
+  - pose proof (tinv_get digest (tcs s) i T) as H.
+    destruct (tc_get digest (tcs s) i) as [[[s' r] t] ret]. exact H.
+  - apply tinv_reopen. exact T.
+Qed.
+
+Lemma tinv_crun digest ops : forall s, tinv digest (tcs s) -> tinv digest (tcs (crun digest s ops)).
+Proof.
+  unfold crun. induction ops as [|o r IH]; intros s T; simpl; [exact T|].
+  apply IH. apply tinv_cstep. exact T.
+Qed.
+
+Theorem client_content_matches digest s0 ops :
+  tinv digest (tcs s0) ->
+  let s := crun digest s0 ops in
+  forall i s' t ret, cstep digest s (CGet i) = (s', TORes TOk t ret) ->
+  exists c, ret = [c; digest c] /\ digest c = i /\ content_of (tcs s) i = Some c.
+Proof.
+  intros T s i s' t ret H. pose proof (tinv_crun digest ops s0 T) as Ts. fold s in Ts.
+  simpl in H. destruct (tc_get digest (tcs s) i) as [[[s1 r] t1] ret1] eqn:G.
+  inversion H; subst.
+  destruct (content_matches_state digest (tcs s) Ts i) as (_ & GM). eapply GM. exact G.
 Qed.
